@@ -163,4 +163,107 @@ theorem measurements_cons (t0 : U64) (rs : List U64) :
 
 theorem measurements_nil : JitterProc.measurements [] = [] := rfl
 
+/-! ## the rounds loop and one collection -/
+
+/-- the observable part of a model state (`memPrevIndex` only selects which scratch byte the
+    memory-access noise source touches) -/
+def abs (j : Jitter.Rng) : JitterProc.St := ⟨j.data, j.rounds, j.halfUsed⟩
+
+theorem collect_zero (fuel : Nat) (j : Jitter.Rng) (ec : Jitter.Ec) (rs : List U64) :
+    Jitter.collect fuel 0 j ec rs = some ((j, ec), rs) := by
+  cases fuel <;> rfl
+
+theorem collect_succ (fuel need : Nat) (j : Jitter.Rng) (ec : Jitter.Ec) (rs : List U64) :
+    Jitter.collect (fuel + 1) (need + 1) j ec rs =
+      (Jitter.measureJitter j ec rs).bind fun r =>
+        if r.1.1 = true then Jitter.collect fuel need r.1.2.1 r.1.2.2 r.2
+        else Jitter.collect fuel (need + 1) r.1.2.1 r.1.2.2 r.2 := by
+  rw [Jitter.collect]
+  simp only [bind, StateT.bind]
+  congr 1
+  funext r
+  rcases r with ⟨⟨ok, j', ec'⟩, rs'⟩
+  cases ok <;> rfl
+
+theorem untilAccepted_zero (ms : List JitterProc.Meas) : JitterProc.untilAccepted 0 ms = some [] := by
+  cases ms <;> rfl
+
+theorem drop3 {α : Type} (n : Nat) (a b c : α) (l : List α) :
+    (a :: b :: c :: l).drop (3 * (n + 1)) = l.drop (3 * n) := by
+  have : 3 * (n + 1) = 3 * n + 1 + 1 + 1 := by omega
+  rw [this]; rfl
+
+theorem drop4 {α : Type} (n : Nat) (a b c d : α) (l : List α) :
+    (a :: b :: c :: d :: l).drop (1 + 3 * (1 + n)) = l.drop (3 * n) := by
+  have : 1 + 3 * (1 + n) = 3 * n + 1 + 1 + 1 + 1 := by omega
+  rw [this]; rfl
+
+theorem collect_eq : ∀ (fuel need : Nat) (j : Jitter.Rng) (ec : Jitter.Ec) (rs : List U64),
+    rs.length < fuel →
+    (Jitter.collect fuel need j ec rs).map (fun r => (abs r.1.1, r.2)) =
+    (JitterProc.untilAccepted need (measFrom ec rs)).map fun taken =>
+      ((⟨taken.foldl JitterProc.absorb j.data, j.rounds, j.halfUsed⟩ : JitterProc.St),
+        rs.drop (3 * taken.length))
+  | fuel, 0, j, ec, rs, _ => by
+    rw [collect_zero, untilAccepted_zero]; rfl
+  | 0, _ + 1, _, _, _, h => absurd h (Nat.not_lt_zero _)
+  | fuel + 1, need + 1, j, ec, rs, h => by
+    rw [collect_succ]
+    match rs, h with
+    | [], _ => rfl
+    | [_], _ => rfl
+    | [_, _], _ => rfl
+    | a :: t :: b :: rest, h =>
+      obtain ⟨mp, hm⟩ := measureJitter_cons j ec a t b rest
+      have hlen : rest.length < fuel := by simp at h; omega
+      rw [hm, Option.bind_some]
+      simp only [measFrom, JitterProc.untilAccepted]
+      cases hst : (step ec t).1.stuck
+      · simp only [Bool.not_false, if_true]
+        rw [collect_eq fuel need _ _ rest hlen]
+        simp [Option.map_map, Function.comp_def, List.foldl_cons, hst, JitterProc.absorb, drop3]
+      · simp only [Bool.not_true, Bool.false_eq_true, if_false]
+        rw [collect_eq fuel (need + 1) _ _ rest hlen]
+        simp [Option.map_map, Function.comp_def, List.foldl_cons, hst, JitterProc.absorb, drop3]
+
+theorem genEntropy_nil (j : Jitter.Rng) : Jitter.genEntropy j [] = none := rfl
+
+theorem genEntropy_cons (j : Jitter.Rng) (t0 : U64) (rs : List U64) :
+    Jitter.genEntropy j (t0 :: rs) =
+      (Jitter.measureJitter j ⟨t0, 0, 0⟩ rs).bind fun r =>
+        (Jitter.collect (r.2.length + 1) r.1.2.1.rounds r.1.2.1 r.1.2.2 r.2).bind fun c =>
+          some ((Jitter.stir c.1.1.data, { c.1.1 with data := Jitter.stir c.1.1.data }), c.2) := by
+  rfl
+
+/-- `gen_entropy` is one collection of the documented procedure -/
+theorem genEntropy_eq (j : Jitter.Rng) (rs : List U64) :
+    (Jitter.genEntropy j rs).map (fun r => (r.1.1, abs r.1.2, r.2)) =
+    (JitterProc.collect j.data j.rounds rs).map fun r =>
+      (r.1, (⟨r.1, j.rounds, j.halfUsed⟩ : JitterProc.St), r.2) := by
+  unfold JitterProc.collect
+  match rs with
+  | [] => rfl
+  | [_] => rfl
+  | [_, _] => rfl
+  | [_, _, _] => rfl
+  | t0 :: a :: t :: b :: rest =>
+    rw [genEntropy_cons, measurements_cons]
+    obtain ⟨mp, hm⟩ := measureJitter_cons j ⟨t0, 0, 0⟩ a t b rest
+    rw [hm, Option.bind_some]
+    simp only [measFrom]
+    have hc := collect_eq (rest.length + 1) j.rounds
+      { j with data := JitterProc.absorb j.data (step ⟨t0, 0, 0⟩ t).1, memPrevIndex := mp }
+      (step ⟨t0, 0, 0⟩ t).2 rest (Nat.lt_succ_self _)
+    revert hc
+    generalize Jitter.collect (rest.length + 1) j.rounds _ _ rest = X
+    generalize JitterProc.untilAccepted j.rounds _ = Y
+    intro hc
+    rcases X with _ | ⟨⟨j', ec'⟩, rs'⟩ <;> rcases Y with _ | taken
+    · rfl
+    · simp at hc
+    · simp at hc
+    · simp only [Option.map_some, Option.some.injEq, Prod.mk.injEq, abs, JitterProc.St.mk.injEq] at hc
+      obtain ⟨⟨h1, h2, h3⟩, h4⟩ := hc
+      simp only [Option.bind_some, Option.map_some, abs, stir_eq, h1, h2, h3, h4, List.foldl_cons, drop4]
+
 end Rngs.JitterRefine
